@@ -28,6 +28,9 @@ func init() {
 // string of at most 8 digits; TimeoutUnit = H / M / S / m / u / n. The result
 // saturates at the largest representable duration.
 func refTimeout(s string) (time.Duration, bool) {
+	if s == timeoutNoValues {
+		return 0, false // nothing to parse: as if the header were absent
+	}
 	if len(s) < 2 || len(s) > 9 {
 		return 0, false
 	}
@@ -60,6 +63,9 @@ func refTimeout(s string) (time.Duration, bool) {
 	}
 	return time.Duration(v) * unit, true
 }
+
+// timeoutNoValues stands for a grpc-timeout key with no value at all.
+const timeoutNoValues = "<key-without-values>"
 
 var timeoutUnits = []byte{'H', 'M', 'S', 'm', 'u', 'n'}
 
@@ -118,7 +124,8 @@ func genTimeoutHeader(c *Chooser) (string, string) {
 	case 10:
 		return Pick(c, "tspace", " 5S", "5 S", "5S ", "\t5S", "5 S"), "spaces"
 	case 11:
-		return Pick(c, "tempty", "", "S", "5", "55", "H", "n"), "empty-or-missing-part"
+		// (the last one: the key is there with an empty list of values)
+		return Pick(c, "tempty", "", "S", "5", "55", "H", "n", timeoutNoValues), "empty-or-missing-part"
 	case 12:
 		return digits(1+c.Intn(3, "tlen")) + Pick(c, "tbadunit", "s", "h", "x", "ms", "D", "U", "N", "µ"), "unknown-unit"
 	case 13:
@@ -158,7 +165,11 @@ func runTimeout(w *World, rs *RunSpec) {
 			p.timeoutRepeated = hv2
 			p.timeoutClass = class2 + "+" + class
 		}
-		ref, ok := refTimeout(hv)
+		eff := hv
+		if hv == timeoutNoValues && p.timeoutRepeated != "" {
+			eff = p.timeoutRepeated
+		}
+		ref, ok := refTimeout(eff)
 		// observe the expiry itself when it is near enough
 		if ok && ref <= 40*24*time.Hour {
 			p.Handler = []Op{{Kind: OpRecv}, {Kind: OpAwaitCtx}, {Kind: OpReturn}}
@@ -206,6 +217,10 @@ func OracleC18(w *World, h *History) {
 		}
 		h.Derived["probe.timeout_headers_checked"]++
 		hv := p.GrpcTimeout
+		if hv == timeoutNoValues && p.timeoutRepeated != "" {
+			// "repeated" with nothing to add: the one value there is counts
+			hv = p.timeoutRepeated
+		}
 		ref, ok := refTimeout(hv)
 		det := map[string]string{"class": p.timeoutClass}
 		got, hasGot := hr.Info.Deadline, hr.Info.HasDeadline
